@@ -724,6 +724,14 @@ func (env *Env) call(x *Expr) Val {
 			sfail("addr(): field %s not found directly", ax.Name)
 		}
 		return Val{T: e.fa(e.structKey(p.Elem()), f.Name(), base.T), Ty: types.NewPointer(f.Type())}
+	case "ptr":
+		// ptr("T", x): view an integer (e.g. a ghost map value) as a pointer of the given type
+		if x.Args[0].Op != "str" {
+			sfail("ptr needs a string literal type")
+		}
+		t := env.parseType(x.Args[0].Name)
+		a := env.tr(x.Args[1])
+		return Val{T: a.T, Ty: t}
 	case "rawat":
 		// element at an absolute position of the backing array of slice b (position-based specs avoid offset arithmetic in triggers)
 		a := env.tr(x.Args[0])
@@ -787,7 +795,7 @@ func (env *Env) call(x *Expr) Val {
 		return Val{T: a.T, Ty: mathInt}
 	}
 	// spec function
-	if sf, ok := e.specs.SpecFuncs[x.Name]; ok && sf.Body != nil {
+	if sf, ok := env.specFunc(x.Name); ok && sf.Body != nil {
 		// defined spec functions are macros: expanded in the current state (they may read the heap)
 		if len(x.Args) != len(sf.Params) {
 			sfail("spec func %s expects %d args", x.Name, len(sf.Params))
@@ -809,7 +817,7 @@ func (env *Env) call(x *Expr) Val {
 		}
 		return sub.tr(sf.Body)
 	}
-	if sf, ok := e.specs.SpecFuncs[x.Name]; ok {
+	if sf, ok := env.specFunc(x.Name); ok {
 		fn := e.declSpecFunc(sf)
 		var args []string
 		if len(x.Args) != len(sf.Params) {
@@ -839,7 +847,7 @@ func (e *Engine) pkgTypes(path string) *types.Package {
 }
 
 func (e *Engine) declSpecFunc(sf *SpecFunc) string {
-	q := sym("spec$" + sf.Name)
+	q := sym("spec$" + shortPath(sf.Pkg) + "$" + sf.Name)
 	if e.sc.seen[q] {
 		return q
 	}
@@ -976,7 +984,7 @@ func (e *Engine) noteFacts(env *Env, x *Expr, guard string) {
 		}
 	case x.Op == "call":
 		// expand defined spec predicates one level to find conjunct quantifiers
-		if sf, ok := e.specs.SpecFuncs[x.Name]; ok && sf.Body != nil && len(x.Args) == len(sf.Params) && env.depth < 6 {
+		if sf, ok := env.specFunc(x.Name); ok && sf.Body != nil && len(x.Args) == len(sf.Params) && env.depth < 6 {
 			nb := map[string]Val{}
 			for i, a := range x.Args {
 				v, err := env.Val(a)
@@ -1124,4 +1132,27 @@ func (e *Engine) globalType(s string) types.Type {
 		}
 	}
 	return t
+}
+
+// spec functions are looked up in the package of the contract being translated first, then globally (ext specs)
+func (env *Env) specFunc(name string) (*SpecFunc, bool) {
+	if env.pkg != nil {
+		if sf, ok := env.e.specs.SpecFuncs[env.pkg.Path()+"."+name]; ok {
+			return sf, true
+		}
+	}
+	if sf, ok := env.e.specs.SpecFuncs[name]; ok {
+		return sf, true
+	}
+	// a package's spec function used from another package's contract (e.g. keystore using snacl's): unique suffix match
+	var found *SpecFunc
+	for k, sf := range env.e.specs.SpecFuncs {
+		if strings.HasSuffix(k, "."+name) {
+			if found != nil {
+				return nil, false
+			}
+			found = sf
+		}
+	}
+	return found, found != nil
 }
